@@ -6,7 +6,7 @@
 set -u
 J=4; [ "${1:-}" = "-j" ] && { J=$2; shift 2; }
 TIER=${1:-quick}; shift || true
-V=/verif; S=/tmp/sm; mkdir -p $S
+V=${VERIF_SNAP:-/verif}; S=/tmp/sm; mkdir -p $S
 SEEDS="$*"; [ -z "$SEEDS" ] && SEEDS=$(ls $V/seeded)
 one() {
   id=$1; P=${id%%-*}; D=$S/$id
